@@ -1664,6 +1664,61 @@ def stale_static_state(prog, roots, file_ok=None):
                         return True
                 return False
 
+            def kills_in_callee(e, v=v, depth=2):
+                """the call hands the variable, by reference, to a function that overwrites that parameter as a whole before doing
+                anything else with it"""
+                if e["k"] != "call" or depth <= 0:
+                    return False
+                args = e.get("args") or []
+                idx = [i for i, a in enumerate(args) if (a.get("v") == v or a.get("root") == v) and (a.get("t") or "").strip() in (v, "this->" + v)]
+                if len(idx) != 1:
+                    return False
+                gs = prog.resolve_call(e)
+                if len({g.id for g in gs}) != 1:
+                    return False
+                g = gs[0]
+                off = len(args) - len(g.params)
+                pi = idx[0] - off
+                if not (0 <= pi < len(g.params)) or "&" not in (g.params[pi].get("type") or "") or "const" in (g.params[pi].get("type") or "").split("&")[0]:
+                    return False
+                pn = g.params[pi]["name"]
+
+                def t2(x):
+                    rv = x.get("recv") or {}
+                    if rv.get("root") == pn or rv.get("v") == pn:
+                        return True
+                    if x["k"] == "assign" and ((x.get("lhs") or {}).get("v") == pn or (x.get("lhs") or {}).get("root") == pn):
+                        return True
+                    if ("v:" + pn) in (x.get("refs") or []):
+                        return True
+                    return any(a.get("root") == pn or a.get("v") == pn for a in (x.get("args") or []) + (x.get("cargs") or []))
+
+                def k2(x):
+                    if x["k"] == "assign" and x.get("op") == "=" and (x.get("lhs") or {}).get("v") == pn:
+                        return True
+                    if x["k"] == "call" and ((x.get("recv") or {}).get("v") == pn or (x.get("recv") or {}).get("root") == pn):
+                        return strip_tmpl(x.get("callee") or "").rsplit("::", 1)[-1] in KILL_METHODS and (x.get("recv") or {}).get("t", "").strip() == pn
+                    return False
+                first = []
+                seen_b = set()
+                work = [(g.entry, 0)]
+                while work:
+                    bid, i0 = work.pop()
+                    if (bid, i0) in seen_b or bid not in g.blocks:
+                        continue
+                    seen_b.add((bid, i0))
+                    stopped = False
+                    for x in g.blocks[bid].elems[i0:]:
+                        if t2(x):
+                            first.append(x)
+                            stopped = True
+                            break
+                    if not stopped:
+                        for s_ in g.blocks[bid].succs:
+                            if s_ is not None:
+                                work.append((s_, 0))
+                return bool(first) and all(k2(x) for x in first)
+
             def is_count(e, v=v):
                 if e["k"] == "incdec":
                     return True
@@ -1672,7 +1727,7 @@ def stale_static_state(prog, roots, file_ok=None):
                 return False
             evs = cfg.events_after(f, d, stop=lambda e: touches(e) and not is_count(e))
             firsts = [e for e in evs if touches(e) and not is_count(e)]
-            bad = [e for e in firsts if not is_kill(e)]
+            bad = [e for e in firsts if not is_kill(e) and not kills_in_callee(e)]
             if bad:
                 out.append((f, d, bad[0], chain))
     return out, n
